@@ -203,7 +203,7 @@ func pathsOf(w []walked) []string {
 var c09TreeCfg = h.TreeCfg{
 	MaxEntries: 14, MaxDepth: 4,
 	Kinds:  []h.Kind{h.KFile, h.KFile, h.KFile, h.KSymlink, h.KFifo, h.KChar, h.KBlock, h.KSocket},
-	Xattrs: true, XattrNS: []string{"user.", "trusted.", "security."},
+	Xattrs: true, XattrNS: []string{"user.", "trusted.", "security."}, BigXattrs: true,
 	Hardlinks: true, SpecialLinks: true, LongNames: true, BadUTF8: true, UncleanTargets: true,
 }
 
@@ -507,9 +507,21 @@ type c09JailResult struct {
 	Stats []hStat `json:"stats"`
 }
 
+// jailWalkArg: optional patterns for the walk that runs inside the chroot.
+type jailWalkArg struct {
+	Include []string `json:"include,omitempty"`
+	Exclude []string `json:"exclude,omitempty"`
+}
+
 func jailWalk(raw json.RawMessage) (any, error) {
 	res := &c09JailResult{}
-	err := fsutil.Walk(context.Background(), "/src", nil, func(p string, fi os.FileInfo, err error) error {
+	var a jailWalkArg
+	_ = json.Unmarshal(raw, &a)
+	var opt *fsutil.FilterOpt
+	if len(a.Include)+len(a.Exclude) > 0 {
+		opt = &fsutil.FilterOpt{IncludePatterns: a.Include, ExcludePatterns: a.Exclude}
+	}
+	err := fsutil.Walk(context.Background(), "/src", opt, func(p string, fi os.FileInfo, err error) error {
 		if err != nil {
 			return err
 		}
